@@ -1,0 +1,10 @@
+//go:build !verif
+// +build !verif
+
+package spg
+
+// Verification hooks are compiled out unless the "verif" build tag is set.
+
+func verifOnDraw(n uint32) {}
+
+func verifCanonAlphabet(chars charList) charList { return chars }
